@@ -16,8 +16,21 @@ def variants(rng_seed):
 def run(res):
     common.prove(res, drivers=["mutex"])
     n = 300 if res.tier == "quick" else 3000
-    sched_common.campaign(res, "C04", "mutex_prog", variants(res.seed), n, ["mutex"],
-                          workers_note=", W in 1..3 workers, K<=6 threads x M<=8 rounds of lock/trylock/timedlock/unlock on 1-2 mutexes")
+    info = sched_common.campaign(res, "C04", "mutex_prog", variants(res.seed), n, ["mutex"],
+                                 workers_note=", W in 1..3 workers, K<=6 threads x M<=8 rounds of lock/trylock/timedlock/unlock on 1-2 mutexes")
+    if info and not res.violations:
+        import os
+        for fn in sorted(os.listdir(info["work"])):
+            if fn.endswith(".log"):
+                bad = trylock_oracle(os.path.join(info["work"], fn))
+                if bad:
+                    tag = fn[:-4]
+                    r = {"sched": os.path.join(info["work"], tag + ".sched"), "log": os.path.join(info["work"], fn)}
+                    idx = int("".join(c for c in tag if c.isdigit()) or 0)
+                    v = variants(res.seed)
+                    d = sched_common.save_replay("C04", r, ["mutex_prog"] + v[idx % len(v)], 0)
+                    res.violations.append((d, True, "trylock oracle: " + bad))
+                    break
     if res.breaks and not res.violations:
         sched_common.search_more(res, "C04", "mutex_prog", variants(res.seed + 1), 300)
     res.assumptions += [
@@ -30,3 +43,39 @@ def run(res):
 
 def replay(path):
     return sched_common.replay("C04", path)
+
+
+def trylock_oracle(logpath):
+    """'trylock fails only if the mutex was held at some instant during the call', decided on the
+    implementation's own events: the lock bit of each mutex is tracked from the CAS / clear events
+    of all threads; a trylock (or timedlock attempt) that returns EBUSY (`note .. busy oN`) must
+    overlap a moment at which the bit was set."""
+    bit = {}            # mutex -> bool
+    call = {}           # (thread, mutex) -> held_during_call so far
+    for n, line in enumerate(open(logpath), 1):
+        w = line.split()
+        if len(w) >= 7 and w[0] == "ev":
+            cur, pt, a, v = w[2], w[3], w[4], w[6]
+            if pt in ("MX_LOCK_CAS1", "MX_TRY_CAS") and v == "1":
+                bit[a] = True
+                for k in call:
+                    if k[1] == a:
+                        call[k] = True
+            elif (pt == "MX_UNLOCK_CAS0" and v == "1") or pt == "MX_CLEAR_BIT":
+                bit[a] = False
+            if pt == "MX_TRY_READ":
+                k = (cur, a)
+                if k not in call:
+                    call[k] = bit.get(a, False)
+                call[k] = call[k] or bit.get(a, False) or (int(v) % 2 == 1)
+            elif pt == "MX_TRY_CAS" and v == "1":
+                call.pop((cur, a), None)
+        elif len(w) >= 5 and w[0] == "note" and w[3] == "busy":
+            k = (w[2], w[4])
+            if k in call:
+                held = call.pop(k)
+                if not held:
+                    return "line %d: trylock of %s by thread %s returned EBUSY although the mutex was not held at any instant during the call" % (n, w[4], w[2])
+        elif len(w) >= 5 and w[0] == "note" and w[3] == "acq":
+            call.pop((w[2], w[4]), None)
+    return None
